@@ -834,7 +834,13 @@ def _check_validate(tier, seed):
             entries.append((ki, (fr, cmd)))
         if rnd.random() < 0.3:
             text = 'no-pty ssh-ed25519 AAAA!!bad\n' + text          # unparsable key: skipped
-        ak = asyncssh.import_authorized_keys(text)
+        try:
+            ak = asyncssh.import_authorized_keys(text)
+        except Exception as e:          # every generated file has parsable lines: it must load
+            bad.append({'file': text, 'asyncssh': 'load raised %s: %s' % (type(e).__name__, e)})
+            if len(bad) >= 5:
+                return n, bad
+            continue
         for host, addr in clients:
             for ki in range(2):
                 n += 1
@@ -892,7 +898,11 @@ def _check_option_handlers(tier, seed):
     for k in (1, 2):
         for combo in itertools.product(plists, repeat=k):
             line = 'cert-authority,' + ','.join('principals="%s"' % p for p in combo) + ' ' + kt + '\n'
-            ak = asyncssh.import_authorized_keys(line)
+            try:
+                ak = asyncssh.import_authorized_keys(line)
+            except Exception as e:
+                bad.append({'line': line, 'asyncssh': 'load raised %s: %s' % (type(e).__name__, e)})
+                continue
             for ps in psets:
                 n += 1
                 got = ak.validate(pub, 'h', '10.0.0.1', ps, ca=True) is not None
